@@ -72,6 +72,7 @@ void vf_install_alloc(void);     /* jwt_set_alloc(vf_malloc, vf_free)           
 typedef struct vj {
 	json_t j;                       /* type + refcount, must be first                */
 	json_int_t ival;                /* JSON_INTEGER                                  */
+	double rval;                    /* JSON_REAL                                     */
 	unsigned n;                     /* JSON_ARRAY: number of elements in val[0..n)   */
 	unsigned nk;                    /* number of non-NULL val[] entries              */
 	unsigned weight;                /* number of nodes in this subtree               */
